@@ -224,7 +224,7 @@ Boolean FloatRangeCheck(Double Wert, FloatType Typ) {
     case Float32:
         return (fabs(Wert) <= 3.4028234663852886e38); /* FLT_MAX */
     case Float64:
-        return (fabs(Wert) <= 1.7e308);
+        return (fabs(Wert) <= 1.7976931348623157e308); /* DBL_MAX (1.7e308 refused 1.75e308) */
         /**     case FloatCo: return fabs(Wert) <= 9.22e18; */
     case Float80:
         return True;
